@@ -20,10 +20,15 @@ import (
 	"vcheck/symex"
 )
 
-const (
-	repoRoot  = "/repo"
-	verifRoot = "/verif"
-)
+const repoRoot = "/repo"
+
+// verifRoot is /verif, or $VERIF_ROOT (used by background runs from a snapshot of /verif).
+var verifRoot = func() string {
+	if r := os.Getenv("VERIF_ROOT"); r != "" {
+		return r
+	}
+	return "/verif"
+}()
 
 type HarnessResult struct {
 	H          *Harness
